@@ -301,6 +301,66 @@ fn noop_cx_poll_accept(l: &mut crate::stream::tcp::TcpListener) -> Poll<std::io:
     Pin::new(l).poll_accept(&mut cx)
 }
 
+/// core.* / braid.* [C09]: the `AcceptorCore` dispatch over each of its three listeners - an idle listener gives
+/// Pending, a connected peer gives `Ok(braid)` of the listener's own kind (never an error of the dispatch), and the
+/// loss of the duplex listener is reported, not hidden.
+#[cfg(all(unix, feature = "stream"))]
+#[tokio::test]
+async fn core_dispatch_three_listeners() {
+    use crate::info::{BraidAddr, HasConnectionInfo as _};
+    use crate::server::conn::AcceptorCore;
+    fn poll_once(a: &mut AcceptorCore) -> Poll<std::io::Result<crate::stream::Braid>> {
+        let waker = futures_util::task::noop_waker();
+        let mut cx = Context::from_waker(&waker);
+        Pin::new(a).poll_accept(&mut cx)
+    }
+    async fn accept(a: &mut AcceptorCore) -> std::io::Result<crate::stream::Braid> {
+        tokio::time::timeout(std::time::Duration::from_secs(5), poll_fn(|cx| Pin::new(&mut *a).poll_accept(cx)))
+            .await
+            .expect("accept timed out")
+    }
+    // TCP
+    let l = crate::stream::tcp::TcpListener::bind("127.0.0.1:0").await.unwrap();
+    let addr = l.local_addr().unwrap();
+    let mut core = AcceptorCore::from(l);
+    assert!(poll_once(&mut core).is_pending(), "core.pending_is_listener (tcp)");
+    let peer = std::net::TcpStream::connect(addr).unwrap();
+    let b = accept(&mut core).await.expect("core.err_is_listener (tcp): the listener is intact");
+    match b.info().remote_addr() {
+        BraidAddr::Tcp(a) => assert_eq!(*a, peer.local_addr().unwrap(), "core.same_conn (tcp)"),
+        other => panic!("braid.from_tcp: a TCP connection came out as {other:?}"),
+    }
+    // duplex
+    let (client, incoming) = duplex::pair();
+    let mut core = AcceptorCore::from(incoming);
+    assert!(poll_once(&mut core).is_pending(), "core.pending_is_listener (duplex)");
+    let (c, s) = tokio::join!(client.connect(64), accept(&mut core));
+    let (mut c, mut s) = (c.unwrap(), s.expect("core.err_is_listener (duplex): the listener is intact"));
+    assert!(matches!(s.info().remote_addr(), BraidAddr::Duplex), "braid.from_duplex");
+    {
+        use tokio::io::{AsyncReadExt, AsyncWriteExt};
+        c.write_all(b"ping").await.unwrap();
+        let mut buf = [0u8; 4];
+        s.read_exact(&mut buf).await.unwrap();
+        assert_eq!(&buf, b"ping", "core.same_conn (duplex)");
+    }
+    drop(client);
+    drop(c);
+    assert!(accept(&mut core).await.is_err(), "core.err_is_listener (duplex): the loss of the listener was hidden");
+    // Unix
+    let dir = std::env::temp_dir().join(format!("verif-core-{}", std::process::id()));
+    let _ = std::fs::remove_dir_all(&dir);
+    std::fs::create_dir_all(&dir).unwrap();
+    let path = dir.join("server.sock");
+    let l = crate::stream::unix::UnixListener::bind(&path).unwrap();
+    let mut core = AcceptorCore::from(l);
+    assert!(poll_once(&mut core).is_pending(), "core.pending_is_listener (unix)");
+    let _peer = std::os::unix::net::UnixStream::connect(&path).unwrap();
+    let b = accept(&mut core).await.expect("core.err_is_listener (unix): the listener is intact");
+    assert!(matches!(b.info().remote_addr(), BraidAddr::Unix(_)), "braid.from_unix");
+    let _ = std::fs::remove_dir_all(&dir);
+}
+
 /// acc.pending_registered / acc.skip_only_dead [C09]: any number of stale connect requests in front of a live one -
 /// one, a few, a whole queue (the channel holds 32), more than a queue - never stalls or ends the acceptor
 #[tokio::test]
